@@ -64,15 +64,21 @@ def run_history(nc0: int, pend0: int, h: list, key, rng):
     node.counters[pkh] = nc0
     src21 = bytes([0]) + G.unb58('tz1', pkh)
 
+    # shape in which this node reports pending operations: objects carrying their hash (current nodes), [hash, operation] pairs
+    # whose operation has no hash field (older nodes), in `applied` or `unprocessed`, or a mixture
+    style = rng.choice(['dict-applied', 'dict-unprocessed', 'pairs', 'pairs-applied', 'mixed', 'mixed'])
+
     def add_pending(n_contents: int, tag: str):
-        op = {'hash': 'o' + tag, 'branch': 'B', 'contents': [{'kind': 'transaction', 'source': pkh, 'counter': '0'} for _ in range(n_contents)]}
-        k = rng.random()
-        if k < 0.5:
-            node.mempool_applied.append(op)
-        elif k < 0.75:
-            node.mempool_unprocessed.append(op)
+        op = {'branch': 'B', 'contents': [{'kind': 'transaction', 'source': pkh, 'counter': '0'} for _ in range(n_contents)], 'signature': 'sig'}
+        st = style if style != 'mixed' else rng.choice(['dict-applied', 'dict-unprocessed', 'pairs', 'pairs-applied'])
+        if st == 'dict-applied':
+            node.mempool_applied.append({'hash': 'o' + tag, **op})
+        elif st == 'dict-unprocessed':
+            node.mempool_unprocessed.append({'hash': 'o' + tag, **op})
+        elif st == 'pairs':
+            node.mempool_unprocessed.append(['o' + tag, op])
         else:
-            node.mempool_unprocessed.append([op['hash'], op])
+            node.mempool_applied.append(['o' + tag, op])
 
     def pending() -> int:
         tot = 0
@@ -85,8 +91,13 @@ def run_history(nc0: int, pend0: int, h: list, key, rng):
     # noise that must not be counted
     node.mempool_applied.append({'hash': 'oF', 'contents': [{'kind': 'transaction', 'source': FOREIGN}, {'kind': 'endorsement', 'level': 1}]})
     node.mempool_unprocessed.append(['oG', {'contents': [{'kind': 'reveal', 'source': FOREIGN}]}])
-    if pend0:
-        add_pending(pend0, 'init')
+    node.mempool_applied.append(['oH', {'contents': [{'kind': 'transaction', 'source': FOREIGN}]}])
+    left, i0 = pend0, 0
+    while left > 0:     # the initially pending contents come as several operations
+        k0 = rng.choice([1, 1, left])
+        add_pending(k0, f'init{i0}')
+        left -= k0
+        i0 += 1
     client = make_client(key, node)
     roots, groups, ginfo = {}, [], []
     dirty, ninj = set(), 0
@@ -208,6 +219,33 @@ def run_history(nc0: int, pend0: int, h: list, key, rng):
                     fails.append({'call_index': idx, 'group': len(groups) - 1, 'carried': ctrs, 'expected_first': expected, **ginfo[-1], 'stale': False})
                 ninj += 1
                 add_pending(len(ctrs), str(idx))
+        elif kind == 'Bulk':
+            # b = client.bulk(*filled groups): a NEW root group (own context) whose contents are reset to the unfilled state; then
+            # b.fill() / b.autofill().  Model: Fill / Autofill of a fresh lineage with the total number of contents
+            gids, lnew, auto = c[1], c[2], c[3]
+            src = [groups[g] for g in gids if g < len(groups) and groups[g] is not None]
+            n = sum(len(x.contents) for x in src)
+            concrete[idx] = [('Autofill', lnew, n, True) if auto else ('Fill', lnew, n)]
+            if auto:
+                wb = wb and n > 0
+            else:
+                wb = wb and n > 0 and pending() == 0
+            pend_at_fill = pending()
+            node.metadata_for = lambda i, cc: {'operation_result': {'status': 'applied', 'consumed_milligas': '100000'}}
+            ok, res = lib.call(lambda: getattr(client.bulk(*src), 'autofill' if auto else 'fill')())
+            if ok:
+                ctrs = [int(x['counter']) for x in res.contents]
+                if ctrs != list(range(ctrs[0], ctrs[0] + len(ctrs))) or len(ctrs) != n:
+                    obs.append(('Other', f'bulk of filled groups: counters {ctrs}'))
+                else:
+                    obs.append(('Filled', ctrs[0], n))
+                groups.append(res)
+                ginfo.append({'lineage': lnew, 'stamp': ninj, 'refilled': False, 'plain_fill_with_pending': (not auto) and pend_at_fill > 0,
+                              'filled_at': idx})
+            elif n == 0:
+                obs.append(('Rejected',))
+            else:
+                obs.append(('Other', f'bulk: {type(res).__name__}: {res}'[:200]))
         elif kind == 'Sign':
             g = c[1]
             if g >= len(groups):
@@ -247,10 +285,13 @@ def run_history(nc0: int, pend0: int, h: list, key, rng):
                 add_pending(len(ctrs), str(idx))
         elif kind == 'Bake':
             node.counters[pkh] += pending()
-            node.mempool_applied = [op for op in node.mempool_applied if not any(cc.get('source') == pkh for cc in op.get('contents', []))]
+            node.mempool_applied = [op for op in node.mempool_applied
+                                    if not any(cc.get('source') == pkh for cc in (op[1] if isinstance(op, list) else op).get('contents', []))]
             node.mempool_unprocessed = [op for op in node.mempool_unprocessed
                                         if not any(cc.get('source') == pkh for cc in (op[1] if isinstance(op, list) else op).get('contents', []))]
             obs.append(('None',))
+    for f in fails:
+        f['mempool_shape'] = style
     model_h = []
     for idx, c in enumerate(h):
         model_h += concrete.get(idx, [c])
@@ -373,6 +414,24 @@ def gen_prebuilt(rng, maxlen):
     return pend0, h[:max(maxlen, len(h))]
 
 
+def gen_bulk(rng, maxlen):
+    """several groups are filled/autofilled standalone (separate lineages, so they all get the same counters), then batched with
+    client.bulk() into one group which is autofilled (or filled) and injected"""
+    pend0 = rng.choice([0, 0, 1, 2])
+    k = rng.choice([2, 2, 3])
+    h = []
+    for i in range(k):
+        h.append(('Autofill', i, rng.choice([1, 1, 2]), True) if (pend0 or rng.random() < 0.5) else ('Fill', i, rng.choice([1, 2])))
+    auto = bool(pend0) or rng.random() < 0.6
+    h.append(('Bulk', list(range(k)), 7, auto))
+    if rng.random() < 0.3:
+        h.append(('Sign', k))
+    h.append(('Inject', k, rng.random() < 0.85))
+    if rng.random() < 0.4:
+        h += [('Bake',), ('Bulk', [0, k], 8, True), ('Inject', k + 1, True)]
+    return pend0, h
+
+
 def gen_arbitrary(rng, maxlen):
     h, ngroups, usable = [], 0, []
     for _ in range(rng.randrange(1, maxlen + 1)):
@@ -416,6 +475,9 @@ FIXED = [
     (126, 0, [('Fill', 0, 1), ('Fill', 0, 2), ('Inject', 0, True), ('Inject', 1, True)]),
     (10, 0, [('Fill', 0, 2), ('Fill', 0, 2), ('Inject', 0, True), ('Inject', 1, True)]),
     (10, 1, [('Autofill', 0, 1, True), ('Autofill', 0, 1, True), ('Inject', 0, True), ('Inject', 1, True)]),
+    (17, 0, [('Autofill', 0, 1, True), ('Autofill', 1, 1, True), ('Bulk', [0, 1], 7, True), ('Inject', 2, True)]),
+    (17, 3, [('Fill', 0, 2), ('Autofill', 1, 1, True), ('Bulk', [0, 1], 7, True), ('Sign', 2), ('Inject', 2, True)]),
+    (126, 2, [('Autofill', 0, 1, True), ('Inject', 0, True), ('Autofill', 1, 2, True), ('Inject', 1, True)]),
     (18, 0, [('SendAsync', 0, 1, True, 0), ('Send', 0, 1, True)]),
     (18, 0, [('SendAsync', 0, 2, True, 0), ('Autofill', 0, 1, True), ('Inject', 1, True), ('Bake',), ('SendAsync', 1, 1, True, 0)]),
     (5, 2, [('SendAsync', 1, 1, False, 0), ('SendAsync', 1, 1, True, 0), ('Autofill', 1, 2, True), ('Inject', 2, True)]),
@@ -463,7 +525,9 @@ def run(ctx: lib.Ctx) -> None:
     while len(hist) < n_total:
         nc0 = rng.choice([0, 1, 5, 10, 125, 126, 127, 128, 16382, 16383, 10 ** 6, 2 ** 63 - 2])
         k = rng.random()
-        if k < 0.12:
+        if k < 0.06:
+            pend0, h = gen_bulk(rng, maxlen)
+        elif k < 0.16:
             pend0, h = gen_prebuilt(rng, maxlen)
         elif k < 0.5:
             pend0, h = gen_wellbehaved(rng, maxlen)
